@@ -23,7 +23,7 @@ def prepare(scratch):
         tgt = os.path.join(dst, host)
         shutil.copy(os.path.join(VERIF, "bounded", src), os.path.join(os.path.dirname(tgt), mod + ".rs"))
         with open(tgt, "a") as fh:
-            fh.write("\n#[cfg(test)]\n#[path = \"%s.rs\"]\nmod %s;\n" % (mod, mod))
+            fh.write("\n#[cfg(test)]\n#[path = \"%s.rs\"]\npub(crate) mod %s;\n" % (mod, mod))
     return dst
 
 
@@ -38,6 +38,8 @@ MODULES = {
     "radv": ("radv_wire.rs", "crates/erbium-core/src/radv/icmppkt.rs", "verif_radv"),
     "ratelimit": ("dns_ratelimit.rs", "crates/erbium-core/src/dns/mod.rs", "verif_ratelimit"),
     "listener": ("dns_listener.rs", "crates/erbium-core/src/dns/mod.rs", "verif_listener"),
+    "httpsvc": ("http_svc.rs", "crates/erbium-core/src/dhcp/mod.rs", "verif_httpsvc"),      # support for "http": no check of its own
+    "http": ("http_list.rs", "crates/erbium-core/src/http.rs", "verif_http_contracts"),
 }
 
 
